@@ -18,13 +18,23 @@ import (
 
 // C19: formatting is idempotent and preserves what the template means.
 
+// every source is formatted by one long-lived Formatter (a tool formats many files with one) and by a fresh one: a
+// Formatter keeps nothing from one call to the next
+var c19Shared = formatter.NewFormatter()
+var c19ReuseDiffs []map[string]any
+
 func c19Format(src string) (out string, err error) {
 	defer func() {
 		if x := recover(); x != nil {
 			err = fmt.Errorf("PANIC %v", x)
 		}
 	}()
-	return formatter.FormatString(src)
+	out, err = formatter.FormatString(src)
+	out2, err2 := c19Shared.Format(src)
+	if (out != out2 || fmt.Sprint(err) != fmt.Sprint(err2)) && len(c19ReuseDiffs) < 50 {
+		c19ReuseDiffs = append(c19ReuseDiffs, map[string]any{"source": src, "fresh": out, "reused": out2, "fresh_error": fmt.Sprint(err), "reused_error": fmt.Sprint(err2)})
+	}
+	return out, err
 }
 
 // front-matter block: a first line starting with "---" up to and including the next line starting with
@@ -358,7 +368,7 @@ func init() { streams["C19"] = runC19 }
 
 func runC19(r *Run) {
 	r.Rule("sources: every .vuego file of the repository and every fenced html/vue snippet of its documentation; generated fragments and full documents over block, inline, phrasing, void, table, pre, script/style elements and comments, attribute values with quotes, entities, comparison operators, object literals, newlines and padding (double- and single-quoted), valueless attributes, mustache expressions containing < > & and quotes, text with references that decode to reference-looking text, front-matter blocks. " +
-		"Oracles: Format(Format x) = Format x byte for byte; parse(Format x) has the same elements, attribute names, attribute values up to whitespace collapse, non-whitespace text, mustache expressions, pre content and raw-text content as parse(x); the front-matter block and the doctype are kept byte for byte. Sources whose parsed DOM cannot be written back as HTML at all (foster parenting, implied end tags) are counted, not judged")
+		"Oracles: Format(Format x) = Format x byte for byte; one long-lived Formatter fed every source in turn answers like a fresh one; parse(Format x) has the same elements, attribute names, attribute values up to whitespace collapse, non-whitespace text, mustache expressions, pre content and raw-text content as parse(x); the front-matter block and the doctype are kept byte for byte. Sources whose parsed DOM cannot be written back as HTML at all (foster parenting, implied end tags) are counted, not judged")
 	rr := r.Rng
 	type src struct{ name, text, origin string }
 	var srcs []src
@@ -510,6 +520,9 @@ func runC19(r *Run) {
 		if m0 != m1 {
 			r.Fail("the formatted text parses to a different template", sig("meaning", c19Class(s.text, f1)), map[string]any{"case": desc, "once": f1, "meaning_source": m0, "meaning_formatted": m1})
 		}
+	}
+	for _, d := range c19ReuseDiffs {
+		r.Fail("a Formatter that has formatted other sources before formats this one differently from a fresh Formatter", map[string]string{"oracle": "reused-formatter", "kind": "oracle"}, d)
 	}
 }
 
